@@ -50,6 +50,7 @@ def vals(h, w, k):
 
 SCALES = [0, 0, -40, 40]            # values are multiplied by 2**e (exact in binary floating point) and divided back
 KINDS = ["array", "grid", "vector"]
+FORMS = [0, 0, 0, 1, 2, 3]          # entry form of the mask / of the values: see make_mask / give
 AFF = ["add", "radd", "sub", "rsub", "mul", "rmul", "neg", "copy"]
 
 def unmasked(m): return [(y, x) for y, r in enumerate(m) for x, b in enumerate(r) if not b]
@@ -119,14 +120,16 @@ def gen_inputs(tier, rng):
         for m in all_masks(h, w):
             if all(all(r) for r in m): continue
             i += 1
-            yield {"op": KINDS[i % 3], "m": m, "ni": bool(i & 1), "sn": bool(i & 2), "k": (i >> 2) % 4, "e": SCALES[(i >> 4) % 4]}
+            yield {"op": KINDS[i % 3], "m": m, "ni": bool(i & 1), "sn": bool(i & 2), "k": (i >> 2) % 4, "e": SCALES[(i >> 4) % 4],
+                   "mt": (i // 3) % 4, "vt": (i // 5) % 4}
             if big or i % 5 == 0:
                 yield {"op": "array", "m": m, "ni": not bool(i & 1), "sn": not bool(i & 2), "k": 1}
     for n in range(1, n1 + 1):
         for bits in itertools.product([False, True], repeat=n):
             if all(bits): continue
             i += 1
-            yield {"op": "array1d" if i % 3 else "grid1d", "r": list(bits), "ni": bool(i & 1), "sn": bool(i & 2), "e": SCALES[(i >> 2) % 4]}
+            yield {"op": "array1d" if i % 3 else "grid1d", "r": list(bits), "ni": bool(i & 1), "sn": bool(i & 2), "e": SCALES[(i >> 2) % 4],
+                   "mt": (i // 3) % 4, "vt": (i // 5) % 4}
             yield {"op": "array1d", "r": list(bits), "ni": not bool(i & 1), "sn": bool(i & 4)}
     # ---- histories (phase 2): quick = every mask with H*W <= 6 gets an object history AND a mask history, the masks with
     #      H*W in {7, 8} get one of the two (alternating); thorough = two of each for every mask with H*W <= 10
@@ -140,7 +143,7 @@ def gen_inputs(tier, rng):
                 if both or i % 2 == 0:
                     cls = rng.choice(hk); sn = rng.random() < 0.6
                     yield {"op": "hist", "cls": cls, "m": m, "ni": rng.random() < 0.5, "sn": sn, "k": rng.randrange(4), "e": rng.choice(SCALES),
-                           "ops": gen_ops(rng, m, sn, cls != "array")}
+                           "mt": rng.choice(FORMS), "vt": rng.choice(FORMS), "ops": gen_ops(rng, m, sn, cls != "array")}
                 if both or i % 2 == 1:
                     yield {"op": "maskhist", "m": m, "ops": gen_mops(rng, m)}
     for n in range(1, nh + 1):
@@ -149,7 +152,8 @@ def gen_inputs(tier, rng):
             i += 1
             sn = rng.random() < 0.6
             yield {"op": "hist", "cls": "array1d" if i % 3 else "grid1d", "m": [list(bits)], "ni": rng.random() < 0.5, "sn": sn,
-                   "k": rng.randrange(4), "e": rng.choice(SCALES), "ops": gen_ops(rng, [list(bits)], sn, False)}
+                   "k": rng.randrange(4), "e": rng.choice(SCALES), "mt": rng.choice(FORMS), "vt": rng.choice(FORMS),
+                   "ops": gen_ops(rng, [list(bits)], sn, False)}
     for _ in range(1500 if big else 150):
         h, w = rng.randint(3, 12), rng.randint(3, 12)
         p = rng.choice([0.1, 0.3, 0.5, 0.8])
@@ -157,11 +161,11 @@ def gen_inputs(tier, rng):
         if all(all(r) for r in m): m[rng.randrange(h)][rng.randrange(w)] = False
         yield {"op": "util", "m": m, "k": 1}
         yield {"op": rng.choice(KINDS), "m": m, "ni": rng.random() < 0.5, "sn": rng.random() < 0.5, "k": rng.randint(0, 3),
-               "e": rng.choice(SCALES)}
+               "e": rng.choice(SCALES), "mt": rng.choice(FORMS), "vt": rng.choice(FORMS)}
         if not big and _ % 3: continue
         sn = rng.random() < 0.6; cls = rng.choice(hk)
         yield {"op": "hist", "cls": cls, "m": m, "ni": rng.random() < 0.5, "sn": sn, "k": rng.randint(0, 3), "e": rng.choice(SCALES),
-               "ops": gen_ops(rng, m, sn, cls != "array")}
+               "mt": rng.choice(FORMS), "vt": rng.choice(FORMS), "ops": gen_ops(rng, m, sn, cls != "array")}
         yield {"op": "maskhist", "m": m, "ops": gen_mops(rng, m)}
 
 def cmask(m): return clist([clist([cbool(b) for b in r]) for r in m])
@@ -191,6 +195,29 @@ class Checks:
             r["py_ok"] = False; r["detail"] = "; ".join(self.bad[:6])
         return r
 
+
+def make_mask(aa, ma, mt, one_d=False):
+    """the same mask through different entry forms: ndarray / python list / invert=True of the complement / 0-1 integers"""
+    M = aa.Mask1D if one_d else aa.Mask2D
+    if mt == 1: return M(mask=ma.tolist(), pixel_scales=1.0)
+    if mt == 2: return M(mask=np.invert(ma), pixel_scales=1.0, invert=True)
+    if mt == 3: return M(mask=ma.astype(int), pixel_scales=1.0)
+    return M(mask=ma, pixel_scales=1.0)
+
+def give(values, vt, exact_scale, build_other):
+    """the same values through different entry forms: float ndarray / python list / integer ndarray / an existing
+    structure of the other storage mode on the same mask"""
+    if vt == 1: return values.tolist()
+    if vt == 2 and exact_scale: return values.astype(int)
+    if vt == 3: return build_other(values)
+    return values
+
+def stored_ok(chk, obj, sn, slim_read, native_read, what):
+    """`.array` of a freshly constructed object is the form it was asked to store"""
+    a = np.asarray(obj.array)
+    ref = np.asarray(native_read if sn else slim_read)
+    if a.shape != ref.shape or not np.array_equal(a, ref): chk.bad.append(what + ": .array is not the stored " + ("native" if sn else "slim") + " form")
+
 # ----------------------------------------------------------------------------- histories of one object
 def raw_native(h, w, t, plane): return [[(-1) ** (x + y + plane) * (11 + 3 * x + 5 * y + t + 20 * plane) for x in range(w)] for y in range(h)]
 def raw_slim(n, t, plane): return [200 + 7 * k + t + 50 * plane for k in range(n)]
@@ -201,8 +228,9 @@ def run_hist(aa, inp):
     ma = np.array(m, dtype=bool); ma0 = ma.copy()
     um = unmasked(m); cnt = len(um)
     chk = Checks()
-    if one_d: mask = aa.Mask1D(mask=ma[0], pixel_scales=1.0)
-    else: mask = aa.Mask2D(mask=ma, pixel_scales=1.0)
+    mt, vt = inp.get("mt", 0), inp.get("vt", 0)
+    m1 = ma[0].copy() if one_d else None
+    mask = make_mask(aa, m1 if one_d else ma, mt, one_d)
     C = {"array": aa.Array2D, "grid": aa.Grid2D, "vector": aa.VectorYX2D, "array1d": aa.Array1D, "grid1d": aa.Grid1D}[cls]
     vgrid = None
     if cls == "vector": vgrid = aa.Grid2D.from_mask(mask=mask)
@@ -213,13 +241,15 @@ def run_hist(aa, inp):
         a = [np.array(p, dtype=float) * sc for p in src]
         if one_d: return a[0][0] if ni else a[0]
         return np.stack(a, axis=-1) if planes == 2 else a[0]
-    def build(values, sn):
+    def build(values, sn, native_grid=None):
         if cls == "vector":
-            return C(values=values, grid=vgrid.native if values.ndim == 3 else vgrid, mask=mask, store_native=sn)
+            if native_grid is None: native_grid = np.ndim(values) == 3
+            return C(values=values, grid=vgrid.native if native_grid else vgrid, mask=mask, store_native=sn)
         return C(values=values, mask=mask, store_native=sn)
-    def read(obj):
+    def read(obj, stored=None):
         s1, n1 = np.array(obj.slim), np.array(obj.native)
         s2, n2 = np.array(obj.slim), np.array(obj.native)           # the same object read twice
+        if stored is not None: stored_ok(chk, obj, stored, s1, n1, "after construction")
         chk.same("second read of .slim differs", s1, s2); chk.same("second read of .native differs", n1, n2)
         s, n = descale(s1, sc), descale(n1, sc)
         if one_d:
@@ -235,9 +265,10 @@ def run_hist(aa, inp):
     slim0 = [[nat0[q][y][x] + 1000 for (y, x) in um] for q in range(planes)]
     ni, sn = inp["ni"], inp["sn"]
     values = as_values(ni, nat0, slim0); values0 = values.copy()
-    obj = build(values, sn)                                            # the caller's array itself, not a copy
+    # the caller's array itself, not a copy (or a list / an integer array / a structure of the other storage mode)
+    obj = build(give(values, vt, inp.get("e", 0) == 0, lambda v: build(v, not sn)), sn, native_grid=ni)
     is_native = sn
-    outs = [read(obj)]
+    outs = [read(obj, stored=sn)]
     zops = [[] for _ in range(planes)]
     older = [(obj, outs[-1])]                                          # objects that no later step edits in place
     edited = False
@@ -295,7 +326,7 @@ def run_hist(aa, inp):
             else: obj[ks] = val
             for q in range(planes): zops[q].append(f"(ZSet {cnat(ks)} {cnat(y)} {cnat(x)} {cz(vs[q])})")
         else: raise ValueError(op)
-        outs.append(read(obj))
+        outs.append(read(obj, stored=is_native if op[0] in ("native", "slim", "build") else None))
         older.append((obj, outs[-1]))
     # objects created along the way, read again at the end
     for j, (o, exp) in enumerate(older):
@@ -304,6 +335,7 @@ def run_hist(aa, inp):
     if not edited: caller_arrays()
     chk.same("the caller's mask array was modified", ma, ma0)
     chk.same("the Mask object was modified", np.array(mask), ma0[0] if one_d else ma0)
+    if one_d: chk.same("the caller's mask array was modified", m1, ma0[0])
     cases = []
     for q in range(planes):
         co = clist(["(" + cvec(o[q][0]) + ", " + (cvec(o[q][1][0]) if one_d else cgrid(o[q][1])) + ")" for o in outs])
@@ -383,11 +415,13 @@ def run_case(inp):
         slim = [v for v, b in zip(native, r) if not b]
         slim_in = [v + 100 for v in slim]
         ra = np.array(r)
-        mask = aa.Mask1D(mask=ra, pixel_scales=1.0)
+        mask = make_mask(aa, ra, inp.get("mt", 0), one_d=True)
         values = np.array(native if inp["ni"] else slim_in, dtype=float) * sc
         values0 = values.copy()
         cls = aa.Array1D if op == "array1d" else aa.Grid1D
-        obj = cls(values=values, mask=mask, store_native=inp["sn"])
+        obj = cls(values=give(values, inp.get("vt", 0), sc == 1.0, lambda v: cls(values=v, mask=mask, store_native=not inp["sn"])),
+                  mask=mask, store_native=inp["sn"])
+        stored_ok(chk, obj, inp["sn"], obj.slim, obj.native, op)
         os_, on_ = descale(obj.slim, sc), descale(obj.native, sc)
         chk.same("the caller's values array was modified", values, values0)
         chk.same("the caller's mask array was modified", ra, np.array(r))
@@ -423,12 +457,14 @@ def run_case(inp):
                  "(KMaskIdx " + cm + " false " + clist([cnat(x) for x in out[3]]) + ")",
                  "(KMaskIdx " + cm + " true " + clist([cnat(x) for x in out[4]]) + ")"]
         return chk.result({"coq": cases[0], "extra_coq": cases[1:], "out": out, "kind": "util", "nontrivial": nontrivial})
-    mask = aa.Mask2D(mask=ma, pixel_scales=1.0)
-    ni, sn = inp["ni"], inp["sn"]
+    mask = make_mask(aa, ma, inp.get("mt", 0))
+    ni, sn = inp["ni"], inp["sn"]; vt = inp.get("vt", 0)
     if op == "array":
         values = np.array(native if ni else slim, dtype=float) * sc
         values0 = values.copy()
-        obj = aa.Array2D(values=values, mask=mask, store_native=sn)
+        obj = aa.Array2D(values=give(values, vt, sc == 1.0, lambda v: aa.Array2D(values=v, mask=mask, store_native=not sn)),
+                         mask=mask, store_native=sn)
+        stored_ok(chk, obj, sn, obj.slim, obj.native, op)
         os_, on_ = descale(obj.slim, sc), descale(obj.native, sc)
         chk.same("the caller's values array was modified", values, values0)
         chk.same("the caller's mask array was modified", ma, ma0)
@@ -451,10 +487,15 @@ def run_case(inp):
     else: values = np.stack([np.array(sy, dtype=float), np.array(sx, dtype=float)], axis=-1).reshape(-1, 2) * sc
     values0 = values.copy()
     if op == "grid":
-        obj = aa.Grid2D(values=values, mask=mask, store_native=sn)
+        obj = aa.Grid2D(values=give(values, vt, sc == 1.0, lambda v: aa.Grid2D(values=v, mask=mask, store_native=not sn)),
+                        mask=mask, store_native=sn)
     else:
         g = aa.Grid2D.from_mask(mask=mask)
-        obj = aa.VectorYX2D(values=values, grid=g.native if ni else g, mask=mask, store_native=sn)
+        gg = g.native if ni else g
+        obj = aa.VectorYX2D(values=give(values, vt, sc == 1.0,
+                                        lambda v: aa.VectorYX2D(values=v, grid=gg, mask=mask, store_native=not sn)),
+                            grid=gg, mask=mask, store_native=sn)
+    stored_ok(chk, obj, sn, obj.slim, obj.native, op)
     os_, on_ = descale(obj.slim, sc), descale(obj.native, sc)
     chk.same("the caller's values array was modified", values, values0)
     chk.same("the Mask2D was modified", np.array(mask), ma0)
